@@ -3,7 +3,9 @@
 Real `meson setup` (ninja backend, mini-ninja shim) on
   * generated target-graph projects (vf/gen/gen_c04.py) x {layout, unity, default_library} (+ rsp threshold),
   * deliberate-collision variants (must be rejected with a MesonException, or at least leave one producer/path),
-  * directed probes,
+  * directed probes (among them: every documented way a target becomes built by default, expected flag =
+    gen_c04.documented_default; a subproject first configured inside an optional subproject that fails and is
+    then used by the parent),
   * the repository corpus (test cases/common, test cases/unit; copies; not configurable => skipped, counted).
 build.ninja is parsed by mini-ninja (independent implementation) and checked for: parse / defined rules, unique
 producers, acyclicity, closed inputs (exist on disk right after configuration or produced), `default all`,
@@ -38,6 +40,13 @@ PIPE_MECH = 'unescapable-pipe-in-build-line-path'
 FLATGEN_MECH = 'flat-layout-wrong-path-for-built-file'
 UNITY_EXT_MECH = 'unity-extracted-objects-ignore-non-unity-sources'
 LOCALPROG_MECH = 'test-local-program-exe-or-arg-not-in-prereq'
+# a subproject first configured from within an optional subproject that then failed stays registered (and is handed
+# out again by subproject()/dependency()) although the Build copy holding its targets was thrown away; the suffix
+# says what is left dangling
+NESTED_MECH = 'nested-subproject-of-failed-optional-subproject-reused'
+NESTED_INPUT = NESTED_MECH + ':statement-input'
+NESTED_PREREQ = NESTED_MECH + ':test-prerequisite'
+NESTED_OWN = NESTED_MECH + ':own-target-dropped'
 SCRATCH_ROOT = ''   # set in the parent before forking workers; removed by common at exit
 
 
@@ -67,6 +76,17 @@ def c04_record(r: runner.Result) -> T.Optional[dict]:
     return recs[-1] if recs else None
 
 
+def orphan_paths(rec: T.Optional[dict]) -> T.Dict[str, str]:
+    """path -> subproject, for the targets of subprojects that are registered as found although they were
+    configured inside an optional subproject that failed (recorded in the child from Interpreter.subprojects and
+    the holders' call stacks).  Classifier input only: the verdict 'dangling' comes from the parsed manifest."""
+    res: T.Dict[str, str] = {}
+    for o in (rec or {}).get('orphaned_subprojects', []) or []:
+        for p in o.get('dropped_paths', []):
+            res[norm(p)] = o['name']
+    return res
+
+
 class Out:
     """Per-case result returned by workers (plain data)."""
 
@@ -93,8 +113,10 @@ class Out:
 
 
 # ------------------------------------------------------------------------------------------------ manifest checks
-def check_manifest(out: Out, bdir: str, rec: T.Optional[dict], cfg: dict) -> T.Optional[mn.Manifest]:
+def check_manifest(out: Out, bdir: str, rec: T.Optional[dict], cfg: dict,
+                   orph: T.Optional[T.Dict[str, str]] = None) -> T.Optional[mn.Manifest]:
     """Structural checks that need no expectation. Returns the manifest when it parses."""
+    orph = orph or {}
     has_pipe = False
     flat = cfg.get('layout') == 'flat'
     unity_on = cfg.get('unity') != 'off'
@@ -174,12 +196,20 @@ def check_manifest(out: Out, bdir: str, rec: T.Optional[dict], cfg: dict) -> T.O
             return False
         unity_ext = [x for x in missing if x not in flat_gen and unity_on and
                      re.search(r'-unity\d+\.[^/]*\.o$', x[0]) and asm_in_same_private_dir(x[0])]
-        rest = [x for x in missing if x not in flat_gen and x not in unity_ext]
+        # classifier 3: the path is the output of a target of a subproject that was first configured inside an
+        # optional subproject that failed: the subproject stays registered and its objects are handed out again,
+        # but its targets went away with the failed subproject's Build copy
+        nested = [x for x in missing if x not in flat_gen and x not in unity_ext and x[0] in orph]
+        rest = [x for x in missing if x not in flat_gen and x not in unity_ext and x not in nested]
         if flat_gen:
             out.violation(FLATGEN_MECH, {'missing': flat_gen[:8], 'n_missing': len(flat_gen),
                                          'produced_as': [flat_twin(x[0]) for x in flat_gen[:8]]})
         if unity_ext:
             out.violation(UNITY_EXT_MECH, {'missing': unity_ext[:8], 'n_missing': len(unity_ext)})
+        if nested:
+            out.violation(NESTED_INPUT, {'missing': nested[:8], 'n_missing': len(nested),
+                                         'subprojects': sorted({orph[x[0]] for x in nested}),
+                                         'registered': [o for o in (rec or {}).get('orphaned_subprojects', [])][:4]})
         if rest:
             out.violation(PIPE_MECH if has_pipe else 'input-neither-exists-nor-produced',
                           {'missing': rest[:8], 'n_missing': len(rest)})
@@ -275,8 +305,10 @@ def reach(m: mn.Manifest, root: str) -> T.Set[int]:
 
 def check_expectations(out: Out, m: mn.Manifest, targets: T.Sequence[T.Tuple[str, bool, T.Sequence[str], str]],
                        tests: T.Sequence[T.Tuple[str, bool, T.Sequence[T.Tuple[str, T.Sequence[str]]]]],
-                       source: str) -> None:
-    """targets: (id, built by default, paths, kind); tests: (name, benchmark, [(target id, paths)])."""
+                       source: str, orph: T.Optional[T.Dict[str, str]] = None) -> None:
+    """targets: (id, built by default (None: the documents do not say), paths, kind);
+    tests: (name, benchmark, [(target id, paths)])."""
+    orph = orph or {}
     r_all = reach(m, 'all')
     r_test = reach(m, 'meson-test-prereq')
     r_bench = reach(m, 'meson-benchmark-prereq')
@@ -286,15 +318,18 @@ def check_expectations(out: Out, m: mn.Manifest, targets: T.Sequence[T.Tuple[str
             out.count('monitor:target-output-produced')
             e = m.producer.get(p)
             if e is None:
-                out.violation('target-output-has-no-producer', {'target': tid, 'path': p, 'kind': kind,
-                                                                'oracle': source})
+                out.violation(NESTED_OWN if p in orph else 'target-output-has-no-producer',
+                              {'target': tid, 'path': p, 'kind': kind, 'oracle': source,
+                               **({'subproject': orph[p]} if p in orph else {})})
                 continue
             if kind in ('alias', 'run', 'RunTarget', 'AliasTarget'):
                 continue
-            if default:
+            if default is None:
+                out.count('default_undocumented_targets_seen')
+            elif default:
                 out.count('monitor:default-reachable-from-all')
                 if e.idx not in r_all:
-                    out.violation('default-target-not-reachable-from-all',
+                    out.violation(NESTED_OWN if p in orph else 'default-target-not-reachable-from-all',
                                   {'target': tid, 'path': p, 'kind': kind, 'oracle': source,
                                    'all_inputs': m.producer['all'].inputs[:20] if 'all' in m.producer else None})
             else:
@@ -312,15 +347,16 @@ def check_expectations(out: Out, m: mn.Manifest, targets: T.Sequence[T.Tuple[str
                 out.count('monitor:test-prereq-reachable')
                 e = m.producer.get(p)
                 if e is None:
-                    out.violation('test-prereq-has-no-producer', {'test': name, 'target': tid, 'path': p,
-                                                                  'oracle': source})
+                    out.violation(NESTED_PREREQ if p in orph else 'test-prereq-has-no-producer',
+                                  {'test': name, 'target': tid, 'path': p, 'oracle': source,
+                                   **({'subproject': orph[p]} if p in orph else {})})
                     continue
                 if e.idx not in rset:
                     # classifier: the test's executable / an argument is the result of find_program() for a name
                     # overridden with a built executable (build.LocalProgram); get_testlike_targets() unwraps
                     # neither (it does for depends:, which Test.__init__ unwraps)
                     mech = LOCALPROG_MECH if via in ('local-program-exe', 'local-program-arg') else \
-                        'test-prerequisite-not-reachable-from-' + root
+                        NESTED_PREREQ if p in orph else 'test-prerequisite-not-reachable-from-' + root
                     out.violation(mech,
                                   {'test': name, 'target': tid, 'path': p, 'oracle': source, 'referenced_as': via,
                                    'prereq_inputs': m.producer[root].inputs[:20] if root in m.producer else None})
@@ -462,7 +498,11 @@ def _run_case(case: dict, out: Out, root: str) -> None:
         out.violation('traceback-during-successful-setup', {'tail': r.err[-800:]})
     if rec is None:
         out.count('inconclusive:no-monitor-record')
-    m = check_manifest(out, bdir, rec, cfg)
+    orph = orphan_paths(rec)
+    if rec is not None:
+        out.count('monitor:orphaned-subprojects-classifier')
+        out.count('orphaned_subprojects_seen', len(rec.get('orphaned_subprojects') or []))
+    m = check_manifest(out, bdir, rec, cfg, orph)
     if rec is not None:
         check_invariants(out, rec)
     if collision is not None:
@@ -481,14 +521,14 @@ def _run_case(case: dict, out: Out, root: str) -> None:
         check_failed_subprojects(out, m, desc['failed_subprojects'], rec)
     if desc is not None and desc.get('targets'):
         targets, tests = desc_expectations(desc, cfg)
-        check_expectations(out, m, targets, tests, 'generator-description')
+        check_expectations(out, m, targets, tests, 'generator-description', orph)
         out.count('described_targets', len(targets))
         out.count('described_tests', len(tests))
     if rec is not None:
         # meson's own target/test table (interpreter data): the only expectation for the corpus, a second
         # opinion for generated projects
         targets, tests = table_expectations(rec)
-        check_expectations(out, m, targets, tests, 'meson-target-table')
+        check_expectations(out, m, targets, tests, 'meson-target-table', orph)
         out.count('table_targets', len(targets))
         out.count('table_tests', len(tests))
     if typ == 'gen':
@@ -803,7 +843,195 @@ def probe_preserve_path() -> T.Tuple[dict, dict]:
     return files, {'targets': [], 'tests': [], 'features': ['probe:generator-preserve-path']}
 
 
+def probe_default_matrix() -> T.Tuple[dict, dict]:
+    """Every documented way a target becomes (or stops being) built by default, in the root, in a sub directory
+    and in a subproject: custom_target build_by_default x install x build_always_stale (+ deprecated
+    build_always), build targets of every kind with build_by_default x install.  Every target is a leaf, so only
+    its own flag brings it into `all`; the expected flag is gen_c04.documented_default (the reference manual),
+    None where the manual does not decide (then only 'has a producer' is demanded)."""
+    cells = [(f, k, b, i) for f, k in gen_c04.BUILD_TARGET_FUNCS for b in gen_c04.TRI for i in gen_c04.TRI]
+    bi = [(b, i) for b in gen_c04.TRI for i in gen_c04.TRI]
+    nf = len(gen_c04.BUILD_TARGET_FUNCS)
+    # sub directory / subproject: every (build_by_default, install) cell once, the target function rotating
+    rot_a = [gen_c04.BUILD_TARGET_FUNCS[n % nf] + c for n, c in enumerate(bi)]
+    rot_b = [gen_c04.BUILD_TARGET_FUNCS[(n + 3) % nf] + c for n, c in enumerate(bi)]
+    files: T.Dict[str, str] = {}
+    targets: T.List[dict] = []
+    lr, tr = gen_c04.default_matrix('dr', '', '', cells)
+    ld, td = gen_c04.default_matrix('dd', '', 'dm dir', rot_a)
+    ls, ts = gen_c04.default_matrix('ds', 'dmsp', '', rot_b)
+    lsd, tsd = gen_c04.default_matrix('dt', 'dmsp', 'in', rot_a)
+    targets = tr + td + ts + tsd
+    for d in ('', 'dm dir/', 'subprojects/dmsp/', 'subprojects/dmsp/in/'):
+        files[d + 'm.c'] = _MAIN
+        files[d + 'l.c'] = 'int l(void) { return 0; }\n'
+    # not decided by the documents (exercised; only 'has a producer' is demanded): vcs_tag(), fs.copyfile(), a
+    # target handed to meson.add_install_script()
+    files['tag.in'] = 'tag @VCS_TAG@\n'
+    extra = ["vcs_tag(input: 'tag.in', output: 'drtag.txt', fallback: 'none')",
+             "import('fs').copyfile('tag.in', 'drcopy.txt')",
+             "dr_scr = custom_target('drscr', output: 'drscr.out', command: [py, '-c', 'pass'])",
+             "meson.add_install_script(py, '-c', 'pass', dr_scr)"]
+    for name, outs in (('drtag.txt', ['drtag.txt']), ('drcopy.txt', ['drcopy.txt']), ('drscr', ['drscr.out'])):
+        targets.append({'id': 'dx' + name, 'kind': 'custom', 'name': name, 'dir': '', 'sp': '', 'default': None,
+                        'cell': 'undocumented/' + name, 'outputs': outs})
+    files['meson.build'] = '\n'.join([_HEAD.rstrip('\n'), "py = find_program('python3')"] + lr + extra +
+                                     ["subdir('dm dir')", "subproject('dmsp')"]) + '\n'
+    files['dm dir/meson.build'] = '\n'.join(ld) + '\n'
+    files['subprojects/dmsp/meson.build'] = '\n'.join(
+        ["project('dmsp', 'c', meson_version: '>=1.0.0')", "py = find_program('python3')"] + ls + ["subdir('in')"]) + '\n'
+    files['subprojects/dmsp/in/meson.build'] = '\n'.join(lsd) + '\n'
+
+    def post(out: Out, m: mn.Manifest, bdir: str, rec: T.Optional[dict]) -> None:
+        seen = set()
+        for t in targets:
+            seen.add((t['cell'], t['default']))
+        out.count('default_matrix_cells', len(seen))
+        out.count('default_matrix_targets:documented-default', sum(1 for t in targets if t['default'] is True))
+        out.count('default_matrix_targets:documented-non-default', sum(1 for t in targets if t['default'] is False))
+        out.count('default_matrix_targets:undocumented', sum(1 for t in targets if t['default'] is None))
+    return files, {'targets': targets, 'tests': [], 'features': ['probe:default-matrix'], 'post': post}
+
+
+_NB_LIB = 'int {n}_fn(void) {{ return 0; }}\n'
+
+
+def nested_subproject(name: str) -> T.Tuple[T.Dict[str, str], T.List[dict], T.List[dict]]:
+    """A subproject that configures fine: an executable, a library and a two-output custom target built by
+    default, a non-default static library, a dependency object, a test and a benchmark.  Returns (files, target
+    descriptions, test descriptions)."""
+    n = name
+    files = {f'subprojects/{n}/meson.build':
+             f"project('{n}', 'c', version: '1.0')\npy = find_program('python3')\n"
+             f"{n}_exe = executable('{n}_exe', 'm.c')\n"
+             f"{n}_lib = library('{n}_lib', 'l.c')\n"
+             f"{n}_st = static_library('{n}_st', 'l.c', build_by_default: false)\n"
+             f"{n}_ct = custom_target('{n}_ct', output: ['{n}_o1.txt', '{n} o$2.dat'], command: [py, '-c', 'pass'], build_by_default: true)\n"
+             f"{n}_dep = declare_dependency(link_with: {n}_lib)\n"
+             f"meson.override_dependency('{n}-dep', {n}_dep)\n"
+             f"test('{n}_test', {n}_exe, args: [{n}_ct], depends: [{n}_st])\n"
+             f"benchmark('{n}_bench', {n}_exe)\n",
+             f'subprojects/{n}/m.c': _MAIN, f'subprojects/{n}/l.c': _NB_LIB.format(n=n)}
+
+    def T_(kind: str, suffix: str, default: bool, **kw: T.Any) -> dict:
+        t = {'id': f'{n}:{suffix}', 'kind': kind, 'name': f'{n}_{suffix}', 'dir': '', 'sp': n, 'default': default}
+        t.update(kw)
+        return t
+    targets = [T_('exe', 'exe', True), T_('library', 'lib', True), T_('static', 'st', False),
+               T_('custom', 'ct', True, outputs=[f'{n}_o1.txt', f'{n} o$2.dat'])]
+    tests = [{'name': f'{n}_test', 'benchmark': False, 'prereq': [f'{n}:exe', f'{n}:ct', f'{n}:st'], 'sp': n},
+             {'name': f'{n}_bench', 'benchmark': True, 'prereq': [f'{n}:exe'], 'sp': n}]
+    return files, targets, tests
+
+
+def probe_nested_reuse() -> T.Tuple[dict, dict]:
+    """A subproject that is first configured from within an OPTIONAL subproject which then fails, and is used by the
+    parent afterwards: reached again through subproject().get_variable() or through dependency(fallback:), its
+    targets used as test executable / argument / depends:, benchmark, custom_target input / command / depends:,
+    alias and run targets, link_with.  Triggers: subproject() and dependency(fallback:) inside the failing one, one
+    more (succeeding) level in between, failure by error() and by a missing dependency.  Controls: the same
+    subproject shape configured by the parent BEFORE an optional subproject uses it and fails, and nested in an
+    intermediate subproject that succeeds - both must be complete in the manifest."""
+    files: T.Dict[str, str] = {'m.c': _MAIN}
+    targets: T.List[dict] = []
+    tests: T.List[dict] = []
+    failed: T.List[dict] = []
+    L = [_HEAD.rstrip('\n'), "py = find_program('python3')"]
+
+    def nb(name: str) -> None:
+        f, t, ts = nested_subproject(name)
+        files.update(f)
+        targets.extend(t)
+        tests.extend(ts)
+
+    def failing(k: str, body: T.Sequence[str], how: str) -> str:
+        """Optional subproject nf<k> (marker NFAIL<k>): declares a target, runs `body`, then fails."""
+        name, M = f'nf{k}', f'NFAIL{k}'
+        end = "error('%s fails')" % M if how == 'error' else f"dependency('c04-no-such-dependency-{name}')"
+        files[f'subprojects/{name}/meson.build'] = '\n'.join(
+            [f"project('{name}', 'c', version: '1.0')", f"{M}_exe = executable('{M}_exe', 'm.c')"] + list(body) +
+            [f"{name}_dep = declare_dependency()", end]) + '\n'
+        files[f'subprojects/{name}/m.c'] = _MAIN
+        failed.append({'name': name, 'marker': M, 'stage': 'after-nested-subproject:' + how, 'via': 'nested-reuse'})
+        return name
+
+    def use(var: str, kind: str, name: str, default: bool, line: str, **kw: T.Any) -> None:
+        L.append(line)
+        t = {'id': 'u:' + name, 'kind': kind, 'name': name, 'dir': '', 'sp': '', 'default': default}
+        t.update(kw)
+        targets.append(t)
+
+    # ---- controls
+    nb('nbctl0')
+    failing('ctl0', ["s = subproject('nbctl0')", "x = s.get_variable('nbctl0_exe')"], 'error')
+    L += ["ctl0 = subproject('nbctl0')", "fctl0 = subproject('nfctl0', required: false)",
+          "assert(not fctl0.found())", "test('ctl0 user', ctl0.get_variable('nbctl0_exe'))"]
+    tests.append({'name': 'ctl0 user', 'benchmark': False, 'prereq': ['nbctl0:exe'], 'sp': ''})
+    nb('nbctl1')
+    files['subprojects/nokmid/meson.build'] = "project('nokmid', 'c')\ns = subproject('nbctl1')\n"
+    L += ["subproject('nokmid')", "ctl1 = subproject('nbctl1')",
+          "test('ctl1 user', ctl1.get_variable('nbctl1_exe'), depends: ctl1.get_variable('nbctl1_st'))"]
+    tests.append({'name': 'ctl1 user', 'benchmark': False, 'prereq': ['nbctl1:exe', 'nbctl1:st'], 'sp': ''})
+
+    # ---- P0: subproject() inside, error(); parent: subproject().get_variable -> tests and benchmark
+    nb('nb0')
+    failing('0', ["s = subproject('nb0')"], 'error')
+    L += ["f0 = subproject('nf0', required: false)", "assert(not f0.found())", "b0 = subproject('nb0')",
+          "test('p0 exe', b0.get_variable('nb0_exe'))",
+          "test('p0 arg dep', py, args: ['-c', 'pass', b0.get_variable('nb0_ct')], depends: [b0.get_variable('nb0_st')])",
+          "benchmark('p0 bench', b0.get_variable('nb0_exe'), depends: b0.get_variable('nb0_lib'))"]
+    tests += [{'name': 'p0 exe', 'benchmark': False, 'prereq': ['nb0:exe'], 'sp': ''},
+              {'name': 'p0 arg dep', 'benchmark': False, 'prereq': ['nb0:ct', 'nb0:st'], 'sp': ''},
+              {'name': 'p0 bench', 'benchmark': True, 'prereq': ['nb0:exe', 'nb0:lib'], 'sp': ''}]
+    # ---- P1: dependency(fallback:) inside and outside; custom_target input / command / depends, link through dep
+    nb('nb1')
+    failing('1', ["d = dependency('c04-absent-nb1', fallback: ['nb1', 'nb1_dep'])"], 'error')
+    L += ["f1 = dependency('c04-absent-nf1', fallback: ['nf1', 'nf1_dep'], required: false)",
+          "assert(not f1.found())",
+          "d1 = dependency('c04-absent-nb1', fallback: ['nb1', 'nb1_dep'])", "b1 = subproject('nb1')"]
+    use('', 'exe', 'p1_linked', True, "executable('p1_linked', 'm.c', dependencies: d1)")
+    use('', 'custom', 'p1_in', True, "custom_target('p1_in', input: b1.get_variable('nb1_st'), output: 'p1_in.txt', "
+        "command: [py, '-c', 'pass', '@INPUT@'], build_by_default: true)", outputs=['p1_in.txt'])
+    use('', 'custom', 'p1_cmd', True, "custom_target('p1_cmd', output: 'p1_cmd.txt', "
+        "command: [b1.get_variable('nb1_exe'), '@OUTPUT@'], build_by_default: true)", outputs=['p1_cmd.txt'])
+    use('', 'custom', 'p1_dep', False, "custom_target('p1_dep', output: 'p1_dep.txt', command: [py, '-c', 'pass'], "
+        "depends: b1.get_variable('nb1_ct'))", outputs=['p1_dep.txt'])
+    # ---- P2: one more (succeeding) level in between; parent: optional request, alias / run targets, link_with
+    nb('nb2')
+    files['subprojects/nmid2/meson.build'] = ("project('nmid2', 'c')\ns = subproject('nb2')\n"
+                                              "nmid2_exe = executable('nmid2_exe', 'm.c')\n")
+    files['subprojects/nmid2/m.c'] = _MAIN
+    targets.append({'id': 'nmid2:exe', 'kind': 'exe', 'name': 'nmid2_exe', 'dir': '', 'sp': 'nmid2', 'default': True})
+    failing('2', ["s = subproject('nmid2')"], 'error')
+    L += ["f2 = subproject('nf2', required: false)", "assert(not f2.found())",
+          "b2 = subproject('nb2', required: false)", "assert(b2.found())",
+          "alias_target('p2_alias', b2.get_variable('nb2_exe'))",
+          "run_target('p2_run', command: [py, '-c', 'pass'], depends: b2.get_variable('nb2_ct'))"]
+    use('', 'exe', 'p2_nd', False, "executable('p2_nd', 'm.c', link_with: b2.get_variable('nb2_lib'), build_by_default: false)")
+    # ---- P3: the optional subproject fails on a missing dependency, requested through dependency(fallback:)
+    nb('nb3')
+    failing('3', ["s = subproject('nb3')"], 'missing-dependency')
+    L += ["f3 = dependency('c04-absent-nf3', fallback: ['nf3', 'nf3_dep'], required: false)", "assert(not f3.found())",
+          "b3 = subproject('nb3')", "test('p3 exe', b3.get_variable('nb3_exe'))"]
+    tests.append({'name': 'p3 exe', 'benchmark': False, 'prereq': ['nb3:exe'], 'sp': ''})
+    files['meson.build'] = '\n'.join(L) + '\n'
+
+    def post(out: Out, m: mn.Manifest, bdir: str, rec: T.Optional[dict]) -> None:
+        out.count('nested_reuse_pairs', 4)
+        out.count('nested_reuse_controls', 2)
+        if rec is not None:
+            names = sorted(o['name'] for o in rec.get('orphaned_subprojects') or [])
+            out.notes.append(('nested_reuse_orphans_registered', names))
+            ctl = [n for n in names if n in ('nbctl0', 'nbctl1', 'nokmid')]
+            if ctl:      # a control classified as orphaned would hide its dangling paths behind the known finding
+                out.violation('nested-reuse-control-classified-as-orphaned', {'orphans': names})
+    return files, {'targets': targets, 'tests': tests, 'features': ['probe:nested-subproject-reuse'],
+                   'failed_subprojects': failed, 'post': post}
+
+
 PROBES: T.Dict[str, T.Callable[[], T.Tuple[dict, dict]]] = {
+    'default-matrix': probe_default_matrix,
+    'nested-reuse': probe_nested_reuse,
     'local-programs': probe_local_programs,
     'preserve-path': probe_preserve_path,
     'mixed-languages': probe_mixed_languages,
@@ -981,6 +1209,13 @@ def main() -> int:
     chk.require('corpus_configured', 10 if quick else 150)
     chk.require('rsp_edges', 1)
     chk.require('monitor:failed-subproject-left-no-trace', 10 if quick else 100)
+    # every documented way of becoming built by default (probe default-matrix) and the nested-subproject-reuse group
+    chk.require('default_matrix_cells', 60)
+    chk.require('default_matrix_targets:documented-default', 80)
+    chk.require('default_matrix_targets:documented-non-default', 40)
+    chk.require('nested_reuse_pairs', 4)
+    chk.require('nested_reuse_controls', 2)
+    chk.require('monitor:orphaned-subprojects-classifier', 50 if quick else 500)
     return chk.finish(
         rule='generated project (seeded target graph: kinds, link chains, generated sources, subdirs, subproject, '
              'tests) x configuration cell (layout, unity, default_library, rsp threshold); distinct = structural '
